@@ -981,36 +981,36 @@ structure F50F where
   bic : Text
   deriving Repr, DecidableEq
 
+/-- the lines between the account and the BIC: an optional `/34x` party line, then name and address lines -/
+def F50F.mid (mid : List Text) : Res (Option Text × List Text) :=
+  match mid with
+  | ('/' :: pid) :: tl =>
+    if pid.isEmpty then .err else if blen pid > 34 then .err else if !(pid.all isSwiftX) then .err else .ok (some pid, tl)
+  | _ => .ok (none, mid)
+
 def F50F.parse (input : Text) : Res F50F :=
-  let lines := splitNl input
-  if lines.length < 2 then .err
-  else match lines with
-    | [] => .err
-    | account :: more =>
-      if account.isEmpty then .err
-      else if blen account > 35 then .err
-      else if !(account.all isSwiftX) then .err
-      else match parseBic (more.getLast?.getD []) with
+  match splitNl input with
+  | [] => .err
+  | [_] => .err
+  | account :: more =>
+    if account.isEmpty then .err
+    else if blen account > 35 then .err
+    else if !(account.all isSwiftX) then .err
+    else match parseBic (more.getLast?.getD []) with
+      | .err => .err
+      | .panic => .panic
+      | .ok bic =>
+        match F50F.mid more.dropLast with
         | .err => .err
         | .panic => .panic
-        | .ok bic =>
-          let mid := more.dropLast
-          let withParty : Bool := match mid with | ('/' :: _) :: _ => true | _ => false
-          let partyOk : Res (Option Text) :=
-            if withParty then
-              (match mid with
-               | ('/' :: pid) :: _ =>
-                 if pid.isEmpty then .err else if blen pid > 34 then .err else if !(pid.all isSwiftX) then .err else .ok (some pid)
-               | _ => .ok none)
-            else .ok none
-          match partyOk with
-          | .err => .err
-          | .panic => .panic
-          | .ok party =>
-            let names := if withParty then mid.drop 1 else mid
-            if !(names.all (fun l => !l.isEmpty && decide (blen l ≤ 35) && l.all isSwiftX)) then .err
-            else if names.length > 4 then .err
-            else .ok ⟨account, party, names, bic⟩
+        | .ok (party, names) =>
+          if !(names.all (fun l => !l.isEmpty && decide (blen l ≤ 35) && l.all isSwiftX)) then .err
+          else if names.length > 4 then .err
+          else .ok ⟨account, party, names, bic⟩
+/-- the party identifier line of a serialisation, if there is one -/
+def partyLine : Option Text → List Text
+  | some x => [('/' :: x)]
+  | none => []
 def F50F.ser (v : F50F) : Text :=
   joinNl ([v.account] ++ (match v.party with | some p => [('/' :: p)] | none => []) ++ v.lines ++ [v.bic])
 def F50F.json (v : F50F) : J :=
